@@ -638,7 +638,7 @@ func init() {
 	register(&Family{Name: "c10", Run: runLoop("C10", "C02"), Gen: func(seed uint64, tier string) *world.Scenario {
 		r := kernel.NewRand(seed, "c10.extra")
 		win := kernel.Pick(r, 1, 2, 3, 5, 10, 10, 20, 50)
-		sc := genLoop("c10", seed, tier, loopOpts{kinds: []string{"hwmon", "hwmon", "file"}, maxFans: 1, neverStopP: 1, stallP: 1, neverSpinP: 0.25, identityOnly: true, constCurve: true, stableAlgos: true,
+		sc := genLoop("c10", seed, tier, loopOpts{kinds: []string{"hwmon", "hwmon", "file"}, maxFans: 1, neverStopP: 1, stallP: 1, neverSpinP: 0.25, identityOnly: r.Bool(0.6), constCurve: true, stableAlgos: true,
 			horizonLo: 40, horizonHi: 60, rpmWin: []int{win}})
 		c10Tune(sc, r, win)
 		return sc
@@ -684,5 +684,16 @@ func c10Tune(sc *world.Scenario, r *kernel.Rand, win int) {
 		// small range so that the maximum is reached
 		lo := r.Range(20, 200)
 		f.MinPwm, f.MaxPwm = world.IntP(lo), world.IntP(lo+r.Range(0, 3))
+	}
+	if f.Kind == "hwmon" && f.MinPwm != nil && f.MaxPwm != nil && r.Bool(0.35) {
+		// the fan already sits at the value the first cycle will request (e.g. after a restart)
+		c := (sc.Sensors[0].Prog.Base - 20000) * 255 / 60000
+		if c < 0 {
+			c = 0
+		}
+		if c > 255 {
+			c = 255
+		}
+		f.Driver.InitPwm = *f.MinPwm + int(float64(c)/255*float64(*f.MaxPwm-*f.MinPwm))
 	}
 }
